@@ -912,9 +912,9 @@ func (fr *Frame) loopModifies(h *ssa.BasicBlock) []string {
 			case *ssa.MakeInterface, *ssa.MakeClosure, *ssa.MakeMap, *ssa.MakeChan:
 				set["$alloc"] = true
 			case *ssa.MapUpdate:
-				set["$maps"] = true
+				set[vc.mapComp(ins.Map.Type().Underlying().(*types.Map))] = true
 			case *ssa.Send:
-				set["$chans"] = true
+				set[vc.chsentComp()] = true
 			case *ssa.UnOp:
 				if ins.Op == token.ARROW {
 					set[vc.chposComp()] = true
